@@ -4,6 +4,7 @@ import (
 	"encoding/json"
 	"fmt"
 	"github.com/beevik/etree"
+	saml2 "github.com/russellhaering/gosaml2"
 	"math/rand"
 	"strings"
 	"sync"
@@ -188,11 +189,14 @@ func (Profile) Run(c *orch.Case) *orch.Outcome {
 	}
 	doc := idp.Serialize(root, lay, rng)
 	enc := idp.Encode(doc, c.Seed%2 == 0)
-	sp := w.NewSP()
-	sp.SkipSignatureValidation = cfg.Skip
-	if !cfg.IssuerCfg {
-		sp.IdentityProviderIssuer = ""
-	}
+	sp := spFor(c.Seed, fmt.Sprint("profile", cfg.Skip, cfg.IssuerCfg), func() *saml2.SAMLServiceProvider {
+		sp := w.NewSP()
+		sp.SkipSignatureValidation = cfg.Skip
+		if !cfg.IssuerCfg {
+			sp.IdentityProviderIssuer = ""
+		}
+		return sp
+	})
 	o := &pObs{}
 	func() {
 		defer func() {
